@@ -13,6 +13,7 @@
 #include <functional>
 #include <limits>
 #include <map>
+#include <set>
 #include <tuple>
 
 #include <mpi.h>
@@ -212,6 +213,13 @@ namespace Dune
 
     /** @brief Information about the messages we send. */
     std::map<int,MessageInformation> infoSend_;
+
+    /**
+     * @brief The (global index, attribute) pairs added to the index set during the current sync.
+     *
+     * Several neighbours may announce the same missing index; it must be added only once.
+     */
+    std::set<std::pair<GlobalIndex,Attribute> > addedIndices_;
 
     /** @brief The type of the remote index list. */
     typedef typename RemoteIndices::RemoteIndexList RemoteIndexList;
@@ -850,6 +858,7 @@ namespace Dune
     repairLocalIndexPointers(globalMap_, remoteIndices_, indexSet_);
 
     oldMap_.clear();
+    addedIndices_.clear();
     globalMap_.clear();
 
     // update the sequence number
@@ -1090,11 +1099,13 @@ namespace Dune
           auto pos = std::lower_bound(index, iEnd, IndexPair(global));
 
           if(pos == iEnd || pos->global() != global) {
-            // no entry with this global index
-            indexSet_.add(global,
-                          ParallelLocalIndex<Attribute>(numberer(global),
-                                                        myAttribute, true));
-            Dune::dvverb << "Adding "<<global<<" "<<myAttribute<<std::endl;
+            // no entry with this global index (unless another neighbour announced it before)
+            if(addedIndices_.insert(std::make_pair(global, myAttribute)).second) {
+              indexSet_.add(global,
+                            ParallelLocalIndex<Attribute>(numberer(global),
+                                                          myAttribute, true));
+              Dune::dvverb << "Adding "<<global<<" "<<myAttribute<<std::endl;
+            }
             continue;
           }
 
@@ -1109,7 +1120,7 @@ namespace Dune
               break;
             }
 
-          if(!indexIsThere) {
+          if(!indexIsThere && addedIndices_.insert(std::make_pair(global, myAttribute)).second) {
             indexSet_.add(global,
                           ParallelLocalIndex<Attribute>(numberer(global),
                                                         myAttribute, true));
